@@ -459,12 +459,13 @@ fn case_fresh_walk(ctx: &mut Ctx, r: &mut Rng, kind: &'static str, vs: Vec<&'sta
         }
         Some(timed_network())
     } else { None };
+    let mut planted: Option<f64> = None;
     if let Some(fa) = fail_at {
         // failing step planted INSIDE the trace before the walk starts (over-limit power / negative speed)
         match &mut case.sim {
-            Sim::Loco(s) => { if fa < s.power_trace.len() { s.power_trace.pwr[fa] = uc::W * 1.0e12; } }
-            Sim::Consist(s) => { if fa < s.power_trace.len() { s.power_trace.pwr[fa] = uc::W * 1.0e12; } }
-            Sim::SetSpeed(s) => { if fa < s.speed_trace.len() { s.speed_trace.speed[fa] = uc::MPS * -1.0; } }
+            Sim::Loco(s) => { if fa < s.power_trace.len() { planted = Some(s.power_trace.pwr[fa].value); s.power_trace.pwr[fa] = uc::W * 1.0e12; } }
+            Sim::Consist(s) => { if fa < s.power_trace.len() { planted = Some(s.power_trace.pwr[fa].value); s.power_trace.pwr[fa] = uc::W * 1.0e12; } }
+            Sim::SetSpeed(s) => { if fa < s.speed_trace.len() { planted = Some(s.speed_trace.speed[fa].value); s.speed_trace.speed[fa] = uc::MPS * -1.0; } }
             Sim::SpeedLimit(s) => { s.fric_brake.force_max = uc::N * -1.0e12; }
         }
         case.input["fail_at_trace_index"] = json!(fa);
@@ -496,6 +497,25 @@ fn case_fresh_walk(ctx: &mut Ctx, r: &mut Rng, kind: &'static str, vs: Vec<&'sta
         ctx.count(if hi == li { "hist.hybrid_private_counter.equal" } else { "hist.hybrid_private_counter.differs" });
     }
     if k > 0 { ctx.sample(&format!("hist_fresh_{}", kind), case.replay()); }
+    // the user repairs the input and resumes with a second walk() on the same object
+    if let (Some(fa), Some(old), true) = (fail_at, planted, failed && case.sim.top_i() == fail_at.unwrap_or(0)) {
+        match &mut case.sim {
+            Sim::Loco(s) => s.power_trace.pwr[fa] = uc::W * old,
+            Sim::Consist(s) => s.power_trace.pwr[fa] = uc::W * old,
+            Sim::SetSpeed(s) => s.speed_trace.speed[fa] = uc::MPS * old,
+            Sim::SpeedLimit(_) => {}
+        }
+        if do_walk(ctx, &mut case, None).is_some() {
+            let n2 = case.sim.dump();
+            emit(ctx, &case, &n2);
+            oracle_alignment(ctx, &case, &n2);
+            ctx.count("hist.fresh.resumed_after_error");
+            let mut o = Orc { ctx };
+            // rows written before the error are still there, in front
+            let keep = n1.iter().zip(&n2).all(|(a, bb)| match (&a.hist_i, &bb.hist_i) { (Some(x), Some(y)) => y.len() >= x.len() && y[..x.len()] == x[..], _ => true });
+            o.req("earlier_rows_intact_after_error", keep, &case, || "rows written before the failing step changed after resuming".into());
+        }
+    }
 }
 
 /// manual stepping with checkpoints, interval changed mid-run, injected failing steps, then a walk
@@ -645,7 +665,7 @@ pub fn run(ctx: &mut Ctx, r: &mut Rng, tier: &str) {
     let mut rr = r.fork();
     case_sim_vec(ctx, &mut rr);
     // ---- generated
-    let n_cases = if thorough { 1500 } else { 110 };
+    let n_cases = if thorough { 4000 } else { 320 };
     for c in 0..n_cases {
         let mut rr = r.fork();
         let kind = KINDS[c % 4];
